@@ -233,6 +233,7 @@ class Field:
     array: Optional[Tuple[int, Optional[int]]] = None  # (count, stride or None = omitted)
     access: str = "rw"  # rw | r | w | ''
     doc: Optional[str] = None
+    style: str = "std"  # attribute spelling: std | stride_first | access_first | stride_mid, optional suffix _colon (legacy `stride: n`)
 
     @property
     def readable(self):
@@ -295,11 +296,19 @@ class Field:
         else:
             head = "bits"
             body = "[" + ", ".join(one(lo, n, True) for lo, n in self.ranges) + "]"
-        parts = [body]
-        if self.access:
-            parts.append(self.access)
+        style = getattr(self, "style", "std")
+        acc = [self.access] if self.access else []
+        stride = []
         if self.array and self.array[1] is not None:
-            parts.append(f"stride = {self.array[1]}")
+            stride = [f"stride {':' if 'colon' in style else '='} {self.array[1]}"]
+        if style.startswith("stride_first"):
+            parts = stride + [body] + acc
+        elif style.startswith("access_first"):
+            parts = acc + [body] + stride
+        elif style.startswith("stride_mid"):
+            parts = [body] + stride + acc
+        else:
+            parts = [body] + acc + stride
         return f"#[{head}({', '.join(parts)})]"
 
     def decl(self):
